@@ -5,7 +5,6 @@ import (
 	"fmt"
 	"reflect"
 	"runtime"
-	"sort"
 	"strings"
 	"sync"
 	"sync/atomic"
@@ -178,8 +177,7 @@ func check(c Case) vk.Verdict {
 			for _, v := range resp.Header.PeekAll(k) {
 				out = append(out, string(v)) // copy at once: PeekAll results alias one buffer
 			}
-			sort.Strings(out)
-			return out
+			return out // in the order of the lines: the order of the field lines of one name is part of the answer
 		}
 		sig := fmt.Sprintf("%d|%q", resp.StatusCode(), resp.Body())
 		for _, h := range []string{"X-Rep", "X-Multi", "Set-Cookie", "X-Up", "X-Up2"} {
